@@ -161,7 +161,7 @@ def _convert_old_agg(agg: AST, unqiue_vars: UniqueVariables) -> AST:
             terms.append(SymbolicTerm(LOC, Number(bm[atom.value])))
             comparison_counter += 1
         elif atom.ast_type == ASTType.SymbolicAtom:
-            if new_literal.sign in (Sign.NoSign, Sign.DoubleNegation):
+            if new_literal.sign == Sign.NoSign:  # only a positive literal binds the fresh variable
                 new_literal = transform_ast(new_literal, "Variable", replace_with_new)
             terms.append(_replace_anon(new_literal.atom.symbol))
         else:
